@@ -129,8 +129,13 @@ def affine_cases(ctx, stats):
     rng = ctx.rng
     out = []
     stats["affine"] = 0
-    for _ in range(110 if ctx.quick() else 800):
-        es = specgen.gen_affine_einsum(rng, same_p=0.2, sum_p=0.15)
+    total = 130 if ctx.quick() else 900
+    for i in range(total):
+        if i % 3 == 0:
+            # several projections co-iterated in one loop: two tensors through the same access, sums of convolutions
+            es = specgen.gen_affine_einsum(rng, two_d_p=0.0, extra_p=0.1, same_p=0.5, sum_p=0.35, single_p=0.0)
+        else:
+            es = specgen.gen_affine_einsum(rng, same_p=0.2, sum_p=0.15)
         mp, kind, syms = specgen.affine_mapping(rng, es, part_p=0.0)
         try:
             spec = runlib.Spec(specgen.yaml_of(es["decl"], [es["expr"]], mp))
